@@ -10,7 +10,12 @@
 #include <stdint.h>
 #include <stdlib.h>
 
-typedef long long spec_int;
+/* SPEC_INT_T may be set to int by a unit that bounds its inputs so that nothing overflows (cbmc's signed-overflow
+ * check covers the specification functions too, so a wrong bound shows up as a failed obligation, not as a wrong proof) */
+#ifndef SPEC_INT_T
+#define SPEC_INT_T long long
+#endif
+typedef SPEC_INT_T spec_int;
 
 /* Appendix E: "fQuotient(a, b) = the greatest integer less than or equal to a/b"   (b > 0).
  * Written with / and % only (no multiplication: cbmc's overflow check on a 64-bit product is very expensive). */
@@ -69,6 +74,26 @@ static spec_int spec_days_from_civil(spec_int y, spec_int m, spec_int d)
  * "y % k == 0" in C is exact divisibility also for negative y, so no floor-modulo is needed here.  m in 1..12. */
 #define SPEC_IS_LEAP_M(y) (((y) % 400 == 0) || (((y) % 100 != 0) && ((y) % 4 == 0)))
 #define SPEC_MAXDAY_M(y, m) (((m) == 4 || (m) == 6 || (m) == 9 || (m) == 11) ? 30 : ((m) == 2) ? (SPEC_IS_LEAP_M(y) ? 29 : 28) : 31)
+
+/* Calendar successor / predecessor of a day (proleptic Gregorian, plain integer year numbering), from the calendar
+ * rules alone: the day after the last day of a month is the 1st of the next month, the month after December is
+ * January of the next year.  m in 1..12, 1 <= d <= SPEC_MAXDAY_M(y, m). */
+typedef struct { int y, m, d; } spec_date;
+static spec_date spec_next_day(int y, int m, int d)
+{
+  spec_date r = { y, m, d + 1 };
+  if (d >= SPEC_MAXDAY_M(y, m)) { r.d = 1; if (m == 12) { r.m = 1; r.y = y + 1; } else r.m = m + 1; }
+  return r;
+}
+static spec_date spec_prev_day(int y, int m, int d)
+{
+  spec_date r = { y, m, d - 1 };
+  if (d <= 1) {
+    if (m == 1) { r.y = y - 1; r.m = 12; r.d = 31; }              /* the day before 1 January is 31 December */
+    else { r.m = m - 1; r.d = SPEC_MAXDAY_M(y, m - 1); }          /* last day of the previous month, same year */
+  }
+  return r;
+}
 
 #ifdef SPEC_NEED_DIV_MODEL
 /* ISO C99 7.20.6.2: "The div ... functions compute numer / denom and numer % denom in a single operation." */
